@@ -191,8 +191,9 @@ def sstep (r : SMat) : Ev → Except Err SMat
     pure (r1.setVar v (.row id))
 
 /-- the events of a history on matrices of width `w` that the theorems cover: a row built outside the matrix has the
-width of the matrix (a store of a row of another length at a SECRET index makes the code truncate every row: finding
-`C15-row-store-other-length`) -/
+width of the matrix (a store of a row of another length at a SECRET index is refused with `ValueError`, as is every
+secret-index row access to a matrix made ragged by plain-index stores: `C15_other_length_refused`; before the repair of
+finding `C15-row-store-other-length` the code truncated every row instead) -/
 def Ev.okWidth (w : Nat) : Ev → Prop
   | .newrow _ vals => vals.length = w
   | _ => True
